@@ -16,7 +16,7 @@ from vmon.res import Result, exc_name
 
 ID = "C04"
 LEVEL = "exploration"
-CASES = {"quick": 8000, "thorough": 160000}
+CASES = {"quick": 8000, "thorough": 800000}
 RULE = ("seeded random frames in random row order (row id + 1-3 group columns of any dtype with NA, +-0.0, +-inf, |x|>=2**53, "
         "long/astral strings + a numeric value column) x {aggregate with count/tracer/helper+lambda twin, count, split, grouped modify}; "
         "non-trivial = nrow >= 2 and >= 2 groups or a group of >= 2 rows; distinct = distinct (op, group kinds, nrow class, "
